@@ -115,9 +115,35 @@ func fpCorpus(universe uint64) ([]*fpFile, error) {
 		ff := &fpFile{path: p, src: src}
 		files = append(files, ff)
 	}
+	// one function that is slow to analyse but below the size guard: 8 sibling
+	// nests of 200 loops each (4801 basic blocks, about a second of loop analysis)
+	{
+		var sb strings.Builder
+		sb.WriteString("package nest\n\nfunc Nest(n int) int {\n\ts := 0\n")
+		for g := 0; g < 8; g++ {
+			for d := 0; d < 200; d++ {
+				fmt.Fprintf(&sb, "for i%d := 0; i%d < n; i%d++ {\n", d, d, d)
+			}
+			sb.WriteString("s += i0\n")
+			for d := 0; d < 200; d++ {
+				sb.WriteString("}\n")
+			}
+		}
+		sb.WriteString("\treturn s\n}\n")
+		src := sb.String()
+		root := filepath.Join(d, "nest")
+		os.MkdirAll(filepath.Join(root, "nest"), 0o755)
+		os.WriteFile(filepath.Join(root, "go.mod"), []byte("module example.test/gen\n\ngo 1.23\n"), 0o644)
+		p := filepath.Join(root, "nest", "f0.go")
+		os.WriteFile(p, []byte(src), 0o644)
+		files = append(files, &fpFile{path: p, src: src})
+	}
 	fpFiles = files
 	return files, nil
 }
+
+// fpNest is the index of the slow-to-analyse file in the corpus.
+const fpNest = nFpFiles + 3
 
 // slot returns the independently loaded package copy of a file for a task slot
 // (loaded on first use, outside any simulation).
@@ -205,6 +231,8 @@ func pickFile(t *vs.Tape, n int) int {
 			w[i] = 10
 		case i < nFpFiles+2:
 			w[i] = 4
+		case i == fpNest:
+			w[i] = 0 // analysed by the fresh-process and history engines only: thousands of park points inside a bubble, and a bubble's clock does not advance during computation anyway
 		default:
 			w[i] = 2
 		}
@@ -354,6 +382,14 @@ func runC01(t *vs.Tape, cfg map[string]string) (res vs.Result) {
 			pkgDir := filepath.Join(deep, filepath.Base(filepath.Dir(files[cl.file].path)))
 			os.MkdirAll(pkgDir, 0o755)
 			os.WriteFile(filepath.Join(deep, "go.mod"), []byte("module example.test/gen\n\ngo 1.23\n"), 0o644)
+			if t.Chance("relocate.gowork", 1, 2) {
+				// a workspace file in an ancestor directory that does not mention this
+				// module (a monorepo root, a developer's ~/src/go.work)
+				os.MkdirAll(filepath.Join(dir, "unrelated"), 0o755)
+				os.WriteFile(filepath.Join(dir, "unrelated", "go.mod"), []byte("module example.test/unrelated\n\ngo 1.23\n"), 0o644)
+				os.WriteFile(filepath.Join(dir, "go.work"), []byte("go 1.23\n\nuse ./unrelated\n"), 0o644)
+				c.Inc("relocations_below_go_work")
+			}
 			p := filepath.Join(pkgDir, "f0.go")
 			os.WriteFile(p, []byte(src), 0o644)
 			var out string
@@ -399,7 +435,11 @@ func runC01History(t *vs.Tape, cfg map[string]string) (res vs.Result) {
 		res.Infra = fmt.Sprintf("history corpus: %v", err)
 		return
 	}
+	slow := fi == fpNest
 	n := []int{2000, 8000, 30000, 90000, 200000}[t.Weighted("history.n", 1, 1, 2, 3, 1)]
+	if slow {
+		n = 6 // about a second per analysis
+	}
 	// loop-bearing functions exercise most of the per-canonicaliser state (SCEV
 	// renaming, induction-variable bookkeeping): they come round three times as often
 	{
@@ -496,7 +536,7 @@ func runC01Stress(t *vs.Tape, cfg map[string]string) (res vs.Result) {
 	for i := 0; i < nTasks; i++ {
 		var p []fpCall
 		for j := 0; j < 3; j++ {
-			p = append(p, fpCall{file: t.Intn(len(files), "file"), policy: t.Intn(2, "policy"), strict: t.Chance("strict", 1, 3)})
+			p = append(p, fpCall{file: t.Intn(fpNest, "file"), policy: t.Intn(2, "policy"), strict: t.Chance("strict", 1, 3)})
 		}
 		progs = append(progs, p)
 	}
@@ -706,7 +746,7 @@ func runC01Fresh(t *vs.Tape, cfg map[string]string) (res vs.Result) {
 	var seq [][3]int
 	for i := 0; i < n; i++ {
 		// mostly the ordinary files (same package path, same helper names), now and then a wide one
-		fi := t.Weighted("fresh.file", 10, 10, 10, 10, 10, 10, 2, 1)
+		fi := t.Weighted("fresh.file", 10, 10, 10, 10, 10, 10, 2, 1, 0, 3)
 		st := 0
 		if t.Chance("fresh.strict", 1, 4) {
 			st = 1
